@@ -7,6 +7,18 @@ Theorems about `MakoModel.Lexer.lex` (the model of `mako.lexer.Lexer.parse`, tie
 streams of `harness/props/C01.py`), for **all** strings `s : List Char` and all configurations `cfg`
 (`Cfg.asFound` = the code before the F1 repair, `Cfg.fixed` = with the repair, `Cfg.current` = what /repo is now,
 regenerated – equal to `Cfg.fixed`, see `current_is_fixed`).  A token `t` accounts for the source span `t.raw s = s[t.start, t.stop)`.
+The last section carries literal text and the escapes through codegen and the target semantics (helpers in
+`Codegen/RenderLiteral.lean`).
+
+OPEN / partial:
+* recorded finding F1c (`match_percent` reads `\s*` where the other line regexes read `[\t ]*`) – no theorem here
+  is conditional on it; it is visible in `text_fidelity`'s percent clause (`ws` ranges over `\s`) and in the
+  `\s*%%`-at-the-start condition of `Plain`;
+* `render_documented_escapes_partial` is soundness of the escapes, not equality with an independent expected
+  string (see its docstring);
+* no step-count (time) theorem: termination and the iteration bound are proved, the time of CPython's `re` is a
+  timing test in the harness;
+* `history_*` theorems are about the code before the F1 repair (`Cfg.asFound`), kept as documentation.
 -/
 namespace MakoModel.C01
 open MakoModel.Lexer MakoModel.Basic
@@ -286,7 +298,8 @@ open MakoModel.Codegen MakoModel.Target in
     `Spec.expected : Str → Str`.  That needs facts the lexer lemmas (`Faithful`) do not record: that a verbatim
     text span contains no further escape, that a `##` comment span is exactly one line with its terminator, that
     the spans of the silent tag tokens are literally `<%text>` and `</%text>`.  The check compares the pipeline
-    with an independent expectation on constructed sources instead (stream `corr.escapes`). -/
+    with an independent expectation on constructed sources instead (stream `corr.escapes` of the C13 check,
+    `harness/props/C13.py`; C01's own render oracles compare the implementation with documented outputs). -/
 theorem render_documented_escapes_partial (s : List Char) (hok : (lex Cfg.current s).outcome = .ok)
     (hesc : EscapeOnly (lex Cfg.current s).toks = true) (k : Nat) (o : Opts) (fuel : Nat)
     (hf : (lex Cfg.current s).toks.length + 9 ≤ fuel) :
